@@ -95,12 +95,12 @@ def execute(run: Run, lab: Lab, histories, corr, tag, rng=None):
         hs.append(lab.with_tables(list(h), rng) + tail)
     outs = lab.pool.map(hs)
     try:
-        reps = lab.run_model(hs)
+        reps = lab.run_model(hs, outs)
     except (ValueError, KeyError, IndexError) as e:
         run.proof_broken.append("the model generated from the lazy-loading source cannot express the histories "
                                 "(%s: %s); histories are judged by the oracle only" % (type(e).__name__, e))
         lab.degrade("%s: %s" % (type(e).__name__, e))
-        reps = lab.run_model(hs)
+        reps = lab.run_model(hs, outs)
     for h, o, r in zip(hs, outs, reps):
         if isinstance(o, dict):
             raise InfraError("history child crashed: %s" % str(o)[-400:])
